@@ -55,20 +55,24 @@ CLAIMED = {
         technique="Lean 4 theorems with a tracing converter (order and multiplicity of converter operations) + compiler-correctness theorem (effects of operand evaluation preserved in order) + correspondence + tracer oracle",
         design="7/C04"),
     "C05": dict(
-        text="SEMANTIC PRESERVATION, PARTIAL (Props/C05Sem.lean, batch_preserves_straight_line_semantics_partial): for every program made of definitions and assignments (of one "
-             "variable or simultaneous), print and a final panic, over every integer / boolean / string expression of the scalar fragment, the lines the Batch converter emits, executed by the Lean "
-             "cmd model Sem/Cmd (run-time !name! expansion, 32-bit set /A on canonical decimal operands, numeric versus quoted string IF, the echo routine, goto :end with the exit "
-             "code in _e), print what the 32-bit source semantics Sem/Src32 prints and end the same way - all programs of that shape, any number of statements, any expression depth. "
-             "NOT proved: control flow (labels, goto, parenthesised blocks), functions, slices, string operations - there Sem/Cmd is an executable "
-             "program-counter machine that is compared in every run with lib/cmdsim.py and the 32-bit reference on the generated programs of the scalar fragment. "
+        text="SEMANTIC PRESERVATION FOR THE SCALAR FRAGMENT (Props/C05Sem.lean, batch_preserves_scalar_semantics - the counterpart of C01's theorem for the other target): for every "
+             "program of integer / boolean / string expressions, definitions and assignments (single or simultaneous), print, panic, if / else-if / else chains, for loops with init / "
+             "condition / increment, break and continue, nested to any depth, the emitted script is start code + helper routines + the lines of a block tree (Sem/CmdTree: if-chains with "
+             "their end label _i<k> and a goto to it at the end of every branch, loops with head label _f<n>, end label _e<n> and first-round flag _fv<n> tested by `if defined`, break / "
+             "continue as goto to the labels of the innermost enclosing loop by construction) + the end lines, and whenever the 32-bit source semantics Sem/Src32 runs the program to an "
+             "outcome with printed lines, the tree runs under the structured reading of cmd.exe's rules (ExecBs: run-time !name! expansion, 32-bit set /A on canonical decimal operands, "
+             "numeric versus quoted string IF, the echo routine, goto abandons every open block) to the same outcome with the same lines - all programs, nestings and iteration counts. "
+             "Also batch_preserves_conditional_semantics_partial (no loops) and batch_preserves_straight_line_semantics_partial (line level, no tree). NOT proved: functions, slices, string "
+             "operations, switch / range (known findings); that cmd.exe executes the line list as the tree says (labels are proved pairwise distinct and every jump resolved in C16) - the "
+             "tree semantics, the line-level program-counter machine Sem/Cmd.runPC, lib/cmdsim.py on the rendered text and the 32-bit reference are compared on every scalar program of every run. "
              "Structure (Props/C05.lean), for every program without any hypothesis: every statement leaves parenthesis depth and the heights of the if/loop/"
              "end-label/function stacks unchanged, all stacks are empty at the end, every emitted script has balanced parentheses (helpers included), label numbers are handed out "
              "once. Beyond the theorem's fragment the semantics under cmd.exe is SEARCHED: the cmd model (lib/cmdsim.py, calibrated on the suite's expectations in every run) executes "
              "the real script of every generated program and compares with the 32-bit reference result.",
-        note=TB + "no cmd.exe exists in the sandbox; cmd.exe's rules are those of Sem/Cmd (for the theorem) and of the cmd model lib/cmdsim.py, which works on the rendered text "
-                  "(DESIGN.md appendix F); the two are compared on every scalar program of every run, Sem/Src32 with the 32-bit reference interpreter.",
-        technique="Lean 4 compiler-correctness theorem (32-bit source semantics vs Lean cmd model, straight-line scalar fragment; partial) + graded-walk theorems on the Batch emitter "
-                  "model + byte-for-byte correspondence + both semantic models validated against a calibrated cmd.exe model and the 32-bit reference + execution of every script under that model",
+        note=TB + "no cmd.exe exists in the sandbox; cmd.exe's rules are those of Sem/Cmd + Sem/CmdTree (for the theorems) and of the cmd model lib/cmdsim.py, which works on the rendered text "
+                  "(DESIGN.md appendix F); they are compared on every scalar program of every run, Sem/Src32 with the 32-bit reference interpreter.",
+        technique="Lean 4 compiler-correctness theorem (32-bit source semantics vs Lean cmd model with labels and goto as a block tree, whole scalar fragment) + graded-walk theorems on the Batch emitter "
+                  "model + byte-for-byte correspondence + the semantic models validated against each other, a calibrated cmd.exe model and the 32-bit reference + execution of every script under that model",
         design="7/C05"),
     "C06": dict(
         text="Calls (calls_agree_with_signatures): in the program built from a main file every call of the file's own statements names a function declared before it - by the imported "
